@@ -1201,12 +1201,82 @@ fn thr_stream(pop: &str) -> Option<u64> {
         "thr-iter" => 23,
         "burst" => 24,
         "thr-expiry" => 25,
+        "thr-sweep" => 26,
         _ => return None,
     })
 }
 
+/// Systematic preemption sweep: one small two-thread program per 96 consecutive run
+/// indices; the run index within the group enumerates who starts, after how many steps the
+/// first preemption happens and how long the other thread then runs before control goes
+/// back (explicit schedule prefix, round-robin afterwards). Seeded search over programs,
+/// systematic over single and double preemption points of each.
+fn generate_sweep(seed: u64, run: u64) -> Trace {
+    const GROUP: u64 = 96;
+    let stream = 26;
+    let mut rng = Prng::new(mix(seed, stream, run / GROUP));
+    let v = run % GROUP;
+    let mut cfg = gen_config(&mut rng, Pop::SeqMixed);
+    cfg.kind = Kind::Sync;
+    cfg.ttl = None;
+    cfg.tti = None;
+    cfg.cap = *rng.pick(&[None, Some(1), Some(2), Some(8)]);
+    let nkeys = rng.range(1, 2) as u16;
+    let mut next_vid = 1u32;
+    let mut threads = Vec::new();
+    for _ in 0..2 {
+        let len = rng.range(1, 3) as usize;
+        let mut prog = Vec::new();
+        for _ in 0..len {
+            let op = match rng.weighted(&[6, 5, 1, 1, 3, 1, 2]) {
+                0 => {
+                    let vid = next_vid;
+                    next_vid += 1;
+                    Op::Insert { k: rng.below(nkeys as u64) as u16, vid, w: *rng.pick(&[0u32, 1, 1, 2]) }
+                }
+                1 => Op::Get { k: rng.below(nkeys as u64) as u16 },
+                2 => Op::Contains { k: rng.below(nkeys as u64) as u16 },
+                3 => Op::Iter,
+                4 => Op::Invalidate { k: rng.below(nkeys as u64) as u16 },
+                5 => Op::InvalidateAll,
+                _ => Op::Sync,
+            };
+            prog.push(OpRec::plain(op));
+        }
+        threads.push(prog);
+    }
+    let first = (v % 2) as u8;
+    let other = 1 - first;
+    let p1 = ((v / 2) % 24) as usize;
+    let p2 = match v / 48 {
+        0 => 400usize, // the other thread runs to completion
+        _ => 2 + ((v / 2) % 6) as usize * 3,
+    };
+    let mut schedule = vec![first; p1];
+    schedule.extend(std::iter::repeat(other).take(p2));
+    schedule.extend(std::iter::repeat(first).take(400));
+    Trace {
+        engine: Engine::Thr,
+        config: cfg,
+        threads,
+        extra: Vec::new(),
+        schedule,
+        sched: None,
+        prologue: Vec::new(),
+        callback_faults: CallbackFaults::default(),
+        origin: Some(Origin {
+            seed,
+            run,
+            population: "thr-sweep".to_string(),
+        }),
+    }
+}
+
 pub fn generate(pop: &str, seed: u64, run: u64) -> Option<Trace> {
     let stream = thr_stream(pop)?;
+    if pop == "thr-sweep" {
+        return Some(generate_sweep(seed, run));
+    }
     let sub = mix(seed, stream, run);
     let mut rng = Prng::new(sub);
     let mut cfg = gen_config(&mut rng, Pop::SeqMixed);
